@@ -391,7 +391,17 @@ func check(run *enga.Run) *sim.Violation {
 		}
 	}
 
-	switch res.End {
+	end := res.End
+	if end == core.EndBudget && onlyIndefiniteWaits(c, recs, res) {
+		// Every call still running when the step budget ended is a PopWait without a deadline.
+		// The scheduler recognises such a wait as stuck when its retries write nothing; an
+		// implementation whose failed attempts do write (a statistics counter, say) polls on
+		// until the budget.  Whether the wait is legitimate is decided exactly as for the stuck
+		// spin: by whether a completed Push is still waiting to be popped.
+		end = core.EndStuckSpin
+		run.Out.Probes["indefinite_wait_still_polling_at_step_budget"]++
+	}
+	switch end {
 	case core.EndBudget:
 		return &sim.Violation{Class: "liveness", Site: "listz.(*SyncList)", Detail: fmt.Sprintf("run did not finish within %d steps under the fair policy", c.Sched.MaxSteps)}
 	case core.EndDeadlock:
@@ -654,4 +664,21 @@ func main() {
 	enga.Main(&enga.Spec{ID: "C11", Gen: gen, New: build, Check: check,
 		// Push waits for in-flight pushes and PopWait(<0) for a value; everything else must finish by itself
 		Bounded: func(op sim.Op) bool { return op.Op != "Push" && !(op.Op == "PopWait" && op.D < 0) }})
+}
+
+// onlyIndefiniteWaits: every call that was started and has not returned is a PopWait without a
+// deadline (and there is at least one).
+func onlyIndefiniteWaits(c *sim.Case, recs [][]sim.Rec, res *core.Result) bool {
+	n := 0
+	for _, t := range res.Unfinished {
+		for i, op := range c.Programs[t] {
+			if r := recs[t][i]; r.Started && !r.Done {
+				if op.Op != "PopWait" || op.D >= 0 {
+					return false
+				}
+				n++
+			}
+		}
+	}
+	return n > 0
 }
